@@ -143,6 +143,10 @@ Lemma good_api_set_link ph r x now : good (api_set_link ph r x now).
 Proof. unfold api_set_link. good_tac. Qed.
 Lemma good_api_set_attr ph a v now : good (api_set_attr ph a v now).
 Proof. unfold api_set_attr. good_tac. Qed.
+Lemma good_api_probe ph c : good (api_probe ph c).
+Proof. unfold api_probe. good_tac. Qed.
+Lemma good_api_probe_link ph l : good (api_probe_link ph l).
+Proof. unfold api_probe_link. good_tac. Qed.
 
 (* ---- lifted to the operations of a history *)
 Definition is_reopen (o : op) : bool := match o with OReopen _ => true | _ => false end.
@@ -151,6 +155,8 @@ Lemma wrapN_sto (m : M N) s : fst (wrapN m s) = fst (m s).
 Proof. unfold wrapN. destruct (m s) as [s' [h|e]]; reflexivity. Qed.
 Lemma wrapU_sto (m : M unit) s : fst (wrapU m s) = fst (m s).
 Proof. unfold wrapU. destruct (m s) as [s' [h|e]]; reflexivity. Qed.
+Lemma wrapT_sto (m : M (list wtok)) s : fst (wrapT m s) = fst (m s).
+Proof. unfold wrapT. destruct (m s) as [s' [h|e]]; reflexivity. Qed.
 
 (* every operation except reopen is a good program *)
 Definition op_prog (o : op) (now : Z) : option (M N + M unit) :=
@@ -165,14 +171,14 @@ Definition op_prog (o : op) (now : Z) : option (M N + M unit) :=
   | ORemove p l k => Some (inr (api_remove p l k))
   | OSetLink p r x => Some (inr (api_set_link p r x now))
   | OSetAttr p a v => Some (inr (api_set_attr p a v now))
-  | OSetAuto _ | OReopen _ => None
+  | OProbe _ _ | OProbeLink _ _ | OSetAuto _ | OReopen _ => None
   end.
 
 Theorem ro_immutable o now s : ro s = true -> is_reopen o = false ->
   sto (fst (exec o now s)) = sto s.
 Proof.
   intros Hro Hr. destruct o; cbn [exec]; try discriminate;
-    try (rewrite wrapN_sto); try (rewrite wrapU_sto);
+    try (rewrite wrapN_sto); try (rewrite wrapU_sto); try (rewrite wrapT_sto);
     try match goal with
         | |- sto (fst (?m s)) = sto s =>
             let G := fresh in
@@ -180,7 +186,7 @@ Proof.
               first [ apply good_api_create | apply good_api_create_mtag | apply good_api_create_feature
                     | apply good_api_lookup | apply good_api_lookup_link | apply good_api_delete
                     | apply good_api_append | apply good_api_remove | apply good_api_set_link
-                    | apply good_api_set_attr ];
+                    | apply good_api_set_attr | apply good_api_probe | apply good_api_probe_link ];
             destruct G as [_ [G _]]; apply G; exact Hro
         end.
   reflexivity.
@@ -207,6 +213,13 @@ Proof.
     - injection Em as <- <-. destruct (G s t1 h Hro E1) as [t [E2 [S2 _]]].
       exists t. unfold wrapU. rewrite E2. auto.
     - injection Em as <- <-. exfalso. eapply Hok. reflexivity. }
+  assert (TwinT : forall m : M (list wtok), good m -> wrapT m (set_ro s true) = (t', r) ->
+                  exists t, wrapT m s = (t, r) /\ sto t = sto s).
+  { intros m [_ [_ G]] Em. unfold wrapT in Em.
+    destruct (m (set_ro s true)) as [t1 [h|e]] eqn:E1.
+    - injection Em as <- <-. destruct (G s t1 h Hro E1) as [t [E2 [S2 _]]].
+      exists t. unfold wrapT. rewrite E2. auto.
+    - injection Em as <- <-. exfalso. eapply Hok. reflexivity. }
   destruct o; cbn [exec] in *; try discriminate.
   - apply TwinN; [apply good_api_create | exact E].
   - apply TwinN; [apply good_api_create_mtag | exact E].
@@ -218,6 +231,8 @@ Proof.
   - apply TwinU; [apply good_api_remove | exact E].
   - apply TwinU; [apply good_api_set_link | exact E].
   - apply TwinU; [apply good_api_set_attr | exact E].
+  - apply TwinT; [apply good_api_probe | exact E].
+  - apply TwinT; [apply good_api_probe_link | exact E].
   - injection E as <- <-. eexists. split; reflexivity.
 Qed.
 
@@ -229,8 +244,11 @@ Corollary ro_mutators_fail o now s :
 Proof.
   intros Hro Hr Hch.
   destruct (exec o now (set_ro s true)) as [t' r] eqn:E. cbn.
-  destruct r as [h|e]; [|exists e; reflexivity].
-  exfalso. destruct (ro_success_means_no_write o now s (ROk h) t' Hro Hr E) as [t [E2 S2]];
-    [intros e; discriminate|].
-  apply Hch. rewrite E2. exact S2.
+  destruct r as [h|l|e]; [| |exists e; reflexivity].
+  - exfalso. destruct (ro_success_means_no_write o now s (ROk h) t' Hro Hr E) as [t [E2 S2]];
+      [intros e; discriminate|].
+    apply Hch. rewrite E2. exact S2.
+  - exfalso. destruct (ro_success_means_no_write o now s (RToks l) t' Hro Hr E) as [t [E2 S2]];
+      [intros e; discriminate|].
+    apply Hch. rewrite E2. exact S2.
 Qed.
